@@ -47,6 +47,8 @@ func c10Provocations(c *Ctx) map[string]func() string {
 		}
 	}
 	c10SiteProvocations(c, out)
+	c10ForkSiteProvocations(c, out)
+	c10Site2Provocations(c, out)
 	n := 10
 	dir := filepath.Join(c.Scratch, "c10provoke")
 	inv := "@include \"lib.mro\"\n\ncall TOP(\n    x = 1,\n)\n"
@@ -106,6 +108,43 @@ func c10Provocations(c *Ctx) map[string]func() string {
 			os.Setenv("PATH", "")
 			defer os.Setenv("PATH", oldPath)
 			return c10CompileText(dir+"/src", lib, inv, true, extra)
+		}
+	}
+	// checkSrc with MANY stages whose code cannot be found (py / exec-exempt / comp-exempt mixed, declared in
+	// the top file and in included files): one error per stage, in the order of the stage declarations.
+	// (Whatever does the per-stage lookups - a loop today - must not let the order of the messages depend
+	// on scheduling or on a map.)
+	{
+		extra := map[string]string{}
+		var incs, stages, calls, rets, outs []string
+		for i := 0; i < 6; i++ {
+			fn := fmt.Sprintf("m%02d/more%02d.mro", (i*5)%6, i)
+			var b strings.Builder
+			for k := 0; k < 4; k++ {
+				lang := []string{"py", "py", "comp", "py"}[k]
+				fmt.Fprintf(&b, "stage MISSING_%02d_%d(\n    in  int x,\n    out int r,\n    src %s \"gone/%02d/code_%d\",\n)\n\n", (i*7)%6, k, lang, i, k)
+			}
+			extra[fn] = b.String()
+			incs = append(incs, fmt.Sprintf("@include %q", fn))
+		}
+		for i := 0; i < 24; i++ {
+			name := fmt.Sprintf("LOST_%02d", (i*11)%24)
+			lang := "py"
+			if i%7 == 3 {
+				lang = "exec"
+			}
+			stages = append(stages, fmt.Sprintf("stage %s(\n    in  int x,\n    out int r,\n    src %s \"lost/%s/main\",\n)\n", name, lang, name))
+			calls = append(calls, fmt.Sprintf("    call %s(\n        x = self.x,\n    )\n", name))
+			outs = append(outs, fmt.Sprintf("    out int r%02d,", i))
+			rets = append(rets, fmt.Sprintf("        r%02d = %s.r,", i, name))
+		}
+		lib := strings.Join(incs, "\n") + "\n\n" + strings.Join(stages, "\n") + "\npipeline TOP(\n    in  int x,\n" + strings.Join(outs, "\n") +
+			"\n)\n{\n" + strings.Join(calls, "\n") + "\n    return (\n" + strings.Join(rets, "\n") + "\n    )\n}\n"
+		out["Ast.checkSrcPaths(many stages without code)"] = func() string {
+			oldPath := os.Getenv("PATH")
+			os.Setenv("PATH", "")
+			defer os.Setenv("PATH", oldPath)
+			return c10CompileText(dir+"/lost", lib, inv, true, extra)
 		}
 	}
 	// MapExp.GoString abbreviates a map with many keys (first two … last two): error text naming a big literal
